@@ -5,6 +5,7 @@
 From Coq Require Import ZArith List Bool.
 From CP Require Import Core.Bytes Core.Result Prim.Int Base.Enum Frame.LVFrame Frame.Units.
 From CP Require Import Lemmas.IntLemmas Lemmas.EnumLemmas Lemmas.UnitInstances.
+From CP Require Import Prim.Mpint Ssh.Record Frame.Ssl2 Frame.SshPacket Lemmas.MpintLemmas Lemmas.MpintNegLemmas Lemmas.CanonLemmas.
 Open Scope Z_scope.
 
 Theorem C05_enum : forall tbl w buf i n, In w widths -> parse_enum tbl w buf = Ok (i, n) ->
@@ -26,3 +27,24 @@ Proof.
   exact (conj tls_record_canonical (conj handshake_canonical (conj mysql_canonical (conj tpkt_canonical
         (conj ovpn_canonical (conj pg_sslrequest_canonical pg_sync_canonical)))))).
 Qed.
+
+(* SSL 2.0 records, for any message parser and type table: a record accepted with a 2- or a 3-byte header, padded or not,
+   composes (2-byte header, no padding) and the result is accepted again, consumed entirely, with the same type and message *)
+Theorem C05_ssl2_record : forall msg types buf t m p n,
+  ssl2_parse msg types buf = Ok ((t, m, p), n) ->
+  exists b2, ssl2_compose t m = Ok b2 /\ ssl2_parse msg types b2 = Ok ((t, m, nil), zlen b2).
+Proof. exact ssl2_canonical. Qed.
+
+(* SSH binary packets, for any message parser: a packet accepted with any padding length and padding bytes re-composes to
+   the packet the padding rule gives (zero padding bytes), which is accepted again with the same payload; the bound excludes
+   payloads within 296 bytes of 4 GiB, whose packet_length would not fit *)
+Theorem C05_ssh_packet : forall msg buf m p n,
+  ssh_parse msg buf = Ok ((m, p), n) -> zlen m < 4294967000 ->
+  ssh_parse msg (ssh_compose m) = Ok ((m, repeat Byte.x00 (Z.to_nat (padding_length (zlen m)))), zlen (ssh_compose m)).
+Proof. exact ssh_canonical. Qed.
+
+(* SSH mpints: every integer a parse can return, from a minimal encoding or not, composes to bytes that parse back to it *)
+Theorem C05_ssh_mpint : forall z,
+  (0 <= z -> zlen (ssh_payload z) < 4294967296) -> (z < 0 -> neg_width z < 4294967296) ->
+  exists b2, compose_ssh_mpint z = Ok b2 /\ parse_ssh_mpint b2 0 = Ok (z, zlen b2).
+Proof. exact ssh_mpint_canonical. Qed.
